@@ -74,4 +74,57 @@ theorem src_framesLeft_spec (b : Builder) (hb : b.Inv) :
 #print axioms src_addFrame_agrees
 #print axioms src_new_spec
 #print axioms src_framesLeft_spec
+/-! ## `PacketBuilder::build`
+
+`Src.build` is the translation of `build`: its guard as the source writes it, the loop over the stored frames as `Prim.forEach`,
+the inner copy loop `for i in start_index..frame.data_len { data.push(frame.data[i as usize]); }` as `Prim.pushRange` (which
+panics when an index of the range is not an index of the 8-byte array). For every builder whose frames carry 8-byte arrays —
+the Rust type's invariant — it computes what the model's `Builder.build` does. -/
+
+theorem pushRange_payload (f : Frame) (hf : f.data.length = 8) (acc : List UInt8) :
+    Prim.pushRange acc f.data (if f.multi then 1 else 0) f.dataLen
+      = match f.payload with | some d => .ok (acc ++ d) | none => .panic := by
+  unfold Prim.pushRange Frame.payload
+  by_cases h8 : f.dataLen ≤ 8
+  · have : ¬ ((if f.multi then 1 else 0) < f.dataLen ∧ f.data.length < f.dataLen) := by omega
+    simp [hf, h8, this]
+  · have : ((if f.multi = true then 1 else 0) < f.dataLen ∧ f.data.length < f.dataLen) := by
+      constructor
+      · split <;> omega
+      · omega
+    simp [hf, h8, this]
+
+theorem forEach_payloads (fs : List Frame) (h : ∀ f ∈ fs, f.data.length = 8) (acc : List UInt8) :
+    Prim.forEach fs acc (fun data frame => Prim.pushRange data frame.data (if frame.multi then 1 else 0) frame.dataLen)
+      = match payloads fs with | some d => .ok (acc ++ d) | none => .panic := by
+  induction fs generalizing acc with
+  | nil => simp [Prim.forEach, payloads]
+  | cons f fs ih =>
+    have hf := h f (by simp)
+    have ih' := fun a => ih (fun g hg => h g (by simp [hg])) a
+    simp only [Prim.forEach]
+    rw [pushRange_payload f hf acc]
+    cases hp : f.payload with
+    | none => simp [payloads, hp]
+    | some a =>
+      simp only []
+      rw [ih' (acc ++ a)]
+      cases hq : payloads fs with
+      | none => simp [payloads, hp, hq]
+      | some b => simp [payloads, hp, hq, List.append_assoc]
+
+theorem src_build_eq (b : Builder) (h : ∀ f ∈ b.frames, f.data.length = 8) : Src.build b = b.build := by
+  first
+  | (simp only [Src.build]; done)      -- not translated on this run (the definition is the model's)
+  | (unfold Src.build Builder.build
+     simp only [forEach_payloads b.frames h []]
+     by_cases hl : b.frames.length = b.expected
+     · have hl' := hl.symm
+       simp [hl]
+       cases payloads b.frames <;> simp [Res.bind]
+     · have hl' : ¬ b.expected = b.frames.length := fun e => hl e.symm
+       simp [hl, hl'])
+
+#print axioms src_build_eq
+
 end Ross
